@@ -607,11 +607,11 @@ func init() {
 		}
 	}
 	reg.Register(reg.Check{Property: "C30", Level: "model_checking", Run: func(run *ev.Run) {
-		depth := 5
+		depth := 4
 		ms := []int64{3, 4}
-		budget := 120 * time.Second
+		budget := 200 * time.Second // far above the expected ~15 s; only reached on an overloaded machine
 		if ev.Tier() == "thorough" {
-			depth = 8
+			depth = 10
 			ms = []int64{3, 4, 5}
 			budget = 14 * time.Minute
 		}
